@@ -315,6 +315,34 @@ def mnv3_cases(refname, tx, cfg, lo, hi, w=9):
     return out
 
 
+def longindel_cases(refname, tx, cfg, lo, hi, dels=(4, 5, 6, 7, 8), inss=('TGCA', 'TGCAT'), gaps=(0, 1, 2, 3)):
+    """A long (frame-shifting or not) indel anchored at p in [lo, hi), alone and together with every second elementary
+    variant (reduced alphabet) anchored on the first retained base after it or 1..3 nt further on; both inside one exon."""
+    ref = panel.get(refname)
+    L = ref.tx_len(tx)
+    g = ref.gene_of[tx]['gene_id']
+    gs = ref.gene_seq(g)
+    out = []
+    for p in range(lo, min(hi, L)):
+        gp = ref.tx_to_gene(tx, p)
+        b = gs[gp]
+        firsts = []
+        for dl in dels:
+            if p + dl < L and ref.tx_to_gene(tx, p + dl) - gp == dl:
+                firsts.append((CV.Var(g, tx, gp, gp + 1 + dl, gs[gp:gp + 1 + dl], b), dl))
+        for i in inss:
+            firsts.append((CV.Var(g, tx, gp, gp + 1, b, b + i), 0))
+        for a, dl in firsts:
+            out.append(Case(refname, small=(a,), cfg=cfg))
+            for gap in gaps:
+                q = p + 1 + dl + gap
+                if q >= L or ref.tx_to_gene(tx, q) - gp != q - p:
+                    continue
+                for c in small_alphabet(ref, tx, q, True):
+                    out.append(Case(refname, small=(a, c), cfg=cfg))
+    return out
+
+
 def small_alphabet_gene(ref: refgen.Ref, tx, gp, dels=(1, 3)):
     """Elementary small variants anchored at GENE position gp (may be intronic: used for variants nested in the donor
     segment of an alt-splicing insertion / substitution): 3 SNVs, insertion of A, deletions of the given lengths."""
